@@ -480,6 +480,10 @@ func GenModel(t *rapid.T, maxTargets int, emit bool) *Model {
 	return m
 }
 
+var longPrefix = strings.Repeat("shared prefix 0123456789 ", 8)
+
+var contentPool = []string{"one\n", "two\n", longPrefix + "A\n", "three", longPrefix + "B\n", "", "one\n", longPrefix + "A\n", "one\ntwo\n", longPrefix + "C"}
+
 var semanticEdits = []string{"src-new", "const", "body", "helper-const", "helper-code", "dir-add", "dir-del", "dir-rename", "dir-edit", "dep-add", "dep-del", "src-add", "src-del", "gen-del", "flag", "src-revert", "const", "src-new"}
 var noopEdits = []string{"src-same", "src-recreate", "comment", "blank", "doc", "unrelated-src", "dir-recreate"}
 
@@ -492,7 +496,7 @@ func GenEdit(t *rapid.T, kinds []string) Op {
 	case "flag":
 		op.S = rapid.SampledFrom([]string{"x", "y", "", "dflt"}).Draw(t, "flagv")
 	default:
-		op.S = rapid.SampledFrom([]string{"one\n", "two\n", "three", "", "one\n"}).Draw(t, "content")
+		op.S = rapid.SampledFrom(contentPool).Draw(t, "content")
 	}
 	return op
 }
